@@ -281,16 +281,17 @@ def run_case(case):
     want_all = ref(Q)
     unit_normals = [unit(n) for n in normals] if kind in ("poly3", "vox") else None
 
-    def compare(name, qarr, want, density):
+    def compare(name, qarr, want, density, raw=False):
         rep.transitions += 1
-        qin = np.array(qarr, float)
-        keep = qin.copy()
+        # raw: hand the caller's object (integer array, nested list) to the library as it is
+        qin = (qarr.copy() if isinstance(qarr, np.ndarray) else [list(r) for r in qarr]) if raw else np.array(qarr, float)
+        keep = np.array(qin).copy()
         try:
             got = np.asarray(obj.compute_form_factor_amplitude(qin, density=density) if density != 1.0 else obj.compute_form_factor_amplitude(qin))
         except Exception as ex:
             rep.violation("fourier", label, "compute_form_factor_amplitude", "raised:" + type(ex).__name__ + ":" + name.split("[")[0], case, "%s (shape %s) raised %r" % (name, np.shape(qarr), ex))
             return
-        if not np.array_equal(qin, keep):
+        if not np.array_equal(np.array(qin), keep):
             rep.violation("fourier", label, "compute_form_factor_amplitude", "argument-mutated", case, "q array modified")
         if got.shape != (len(qarr),):
             rep.violation("fourier", label, "compute_form_factor_amplitude", "bad-result-shape", case, "%s: result shape %s for %d wave vectors" % (name, got.shape, len(qarr)))
@@ -353,5 +354,13 @@ def run_case(case):
             compare("ordered-batch[" + ",".join(names[c] for c in combo) + "]", rq[combo], rw[combo], 1.0)
             if ln <= 2:
                 compare("ordered-batch[" + ",".join(names[c] for c in combo) + "]", rq[combo], rw[combo], 2.5)
+    # input forms: whole-number wave vectors as an integer array / nested lists of Python ints (a user types
+    # [[1, 0, 0]]) must give what the same vectors give as floats
+    qi = np.array([[1, 0, 0], [0, 2, 0], [0, 0, -3], [1, -1, 2], [0, 0, 0], [2, 2, 1]], dtype=np.int64)
+    qs = max(1, int(round(3.0 / L))) if L > 0 else 1
+    qi = qi * qs
+    wi = ref(qi.astype(float))
+    compare("int64-wave-vectors", qi, wi, 1.0, raw=True)
+    compare("int32-wave-vectors", qi.astype(np.int32), wi, 2.5, raw=True)  # (nested lists are not accepted by the polyhedron classes: documented as ndarray)
     rep.sample({"case": case, "nq": int(len(Q)), "F0": size})
     return rep
